@@ -76,6 +76,7 @@ func fullName(fn *ssa.Function) string { return fn.RelString(nil) }
 func (x *Exec) callFunc(st *State, fr *Frame, site ssa.Instruction, fn *ssa.Function, binds []Val, args []Val, where string, k func(*State, Val)) {
 	name := fullName(fn)
 	x.atCallAsserts(st, fr, name, fnParamNames(fn), args, where)
+	k = x.withGhostSets(fr, name, fnParamNames(fn), args, fn.Signature.Results(), k)
 	if x.intrinsic(st, fr, site, fn, name, args, where, k) {
 		return
 	}
@@ -387,8 +388,11 @@ func (x *Exec) applyModifies(post, pre *State, fr *Frame, env *Env, m *SExpr, wh
 		key := "ghost!" + m.Name
 		if old, ok := post.ghost[key]; ok {
 			post.ghost[key] = x.E.fresh("gh."+m.Name, old.S)
+		} else if gs, ok := x.E.ghostDecls[m.Name]; ok {
+			post.ghost[key] = x.E.fresh("gh."+m.Name, gs)
 		} else {
-			post.ghost[key] = x.E.fresh("gh."+m.Name, IntS)
+			x.abort(post, "modifies: unknown ghost or global "+m.Name)
+			return
 		}
 		if x.dry {
 			x.dryEff.ghost[key] = true
